@@ -188,6 +188,68 @@ pub fn run(run: &mut Run) {
     super::seq_report(run, &m2, &res2, &cfg2);
     run.cov("exhaustive", serde_json::json!(ex && res2.exhausted_bound));
     run.cov("depth_bound", serde_json::json!(cfg.max_depth));
+    end_to_end(run, quick);
     run.assume("each (operation, member) pair is registered at most once, as the fan-out loop does; acknowledgements may come at any time, repeatedly, from any name");
-    run.assume("end-to-end accounting (acks travelling over links) is observed in the cluster checks (C04/C14)");
+    run.assume("end to end: the same accounting is read in every state of cluster explorations (scripts of C04) - acks never exceed copies, and the pending table is empty once the cluster is silent");
+}
+
+
+/// the accounting observed end to end: every state of a cluster exploration
+fn end_to_end(run: &mut Run, quick: bool) {
+    use super::cluster::{build, ClusterSetup, Script};
+    use crate::net::{explore_net, NetCfg, NetWorld, T};
+    crate::net::init_sleep_sites();
+    let scripts: Vec<Vec<(usize, &str)>> = vec![vec![(0, "set k v1")], vec![(1, "set k v1")], vec![(0, "set k v1"), (0, "increment c")], vec![(0, "remove k"), (1, "set k v2")], vec![(0, "create-db d2 tok2")]];
+    let mut states = 0;
+    let mut capped = 0;
+    for nodes in if quick { vec![2] } else { vec![2, 3] } {
+        for sc in scripts.iter() {
+            let script = Script { ops: sc.iter().map(|(n, c)| (*n, c.to_string())).collect() };
+            let setup = ClusterSetup { nodes, strategy: "none", init: vec!["set k v0".into(), "set c 5".into()] };
+            let mk = || build(&setup, &script);
+            let on_state = |w: &NetWorld, _: &[T]| -> Vec<(String, String)> {
+                let mut out = vec![];
+                for (i, n) in w.nodes.iter().enumerate() {
+                    let p = n.node.dbs.pending_opps.read().unwrap();
+                    for (id, m) in p.iter() {
+                        if m.count_acknowledged() > m.count_replication() {
+                            out.push(("acks-exceed-copies".to_string(), format!("more acknowledgements than copies for an operation; n{} op {}: {} acks {} copies", i + 1, id, m.count_acknowledged(), m.count_replication())));
+                        }
+                        let acked = m.replications.lock().unwrap().values().filter(|b| **b).count();
+                        if acked < m.count_acknowledged() {
+                            out.push(("ack-counted-twice".to_string(), format!("the acknowledgement counter is above the number of nodes that acknowledged; n{} op {}", i + 1, id)));
+                        }
+                    }
+                }
+                out
+            };
+            let on_q = |w: &NetWorld, _: &[T]| -> Vec<(String, String)> {
+                let mut out = vec![];
+                for (i, n) in w.nodes.iter().enumerate() {
+                    let p = n.node.dbs.pending_opps.read().unwrap().len();
+                    if p != 0 {
+                        out.push(("pending-after-all-acks".to_string(), format!("operations still pending when the cluster is silent; n{} reports {} pending", i + 1, p)));
+                    }
+                }
+                out
+            };
+            let cfg = NetCfg { max_states: if quick { 3000 } else { 30000 }, max_path: 200, budget: std::time::Duration::from_secs(if quick { 5 } else { 60 }), workers: crate::util::workers() };
+            match explore_net(&mk, &on_state, &on_q, &cfg) {
+                Ok((st, findings)) => {
+                    states += st.states;
+                    capped += st.cap.is_some() as u64;
+                    run.cov_add("states", st.states);
+                    run.cov_add("transitions", st.transitions);
+                    let name = format!("[{} nodes] {}", nodes, script.name());
+                    super::cluster::report_findings(run, "C15", &name, findings, &|f| f.detail.split(';').next().unwrap_or("").to_string());
+                }
+                Err(e) => {
+                    eprintln!("machinery: C15 cluster exploration failed: {}", e);
+                    std::process::exit(2);
+                }
+            }
+        }
+    }
+    run.cov("cluster_states_observed", serde_json::json!(states));
+    run.cov("cluster_scripts_capped", serde_json::json!(capped));
 }
